@@ -62,6 +62,25 @@ class Rejecting:
         return ast
 
 
+def piprobe(model):
+    """a semantics with one method per rule that looks for the parse information of its *own* invocation in the AST it is handed.
+    Parse information is added to a rule's result after its action ran; an AST that a rule merely passes on may carry the inner
+    rule's entries, never the outer rule's own (same rule name and span)"""
+    from tatsu.util import safe_name
+    seen = []
+
+    def make(rule):
+        def method(self_, ast, *a, **kw):
+            own = kw.get('parseinfo')
+            pi = ast.get('parseinfo') if isinstance(ast, dict) else None
+            if own is not None and pi is not None and getattr(pi, 'rule', None) == rule and (pi.pos, pi.endpos) == (own.pos, own.endpos):
+                seen.append((rule, pi.pos, pi.endpos))
+            return ast
+        return method
+    ns = {safe_name(r.name): make(r.name) for r in model.rules}
+    return type('PiProbe', (), ns)(), seen
+
+
 def quiet_outcome(model, text, start, **kw):
     buf = io.StringIO()
     with contextlib.redirect_stderr(buf), contextlib.redirect_stdout(buf):
@@ -106,6 +125,15 @@ def check(gtext, start, text, lr, model=None, pick=None):
                 if son != soff:
                     return dict(bucket='call-set', oracle='the set of ASTs handed to actions is the same with and without memoization',
                                 only_with_memo=sorted(son - soff)[:3], only_without=sorted(soff - son)[:3]), info
+            # parse information is added after the action: the action must not find its own invocation's entry in the AST
+            # (only where every rule body runs once per position: no left recursion, no @nomemo/@nostak rules, default cache)
+            if not lr and not any(r.no_memo or r.no_stak for r in model.rules):
+                probe, seen = piprobe(model)
+                quiet_outcome(model, text, start, semantics=probe, parseinfo=True)
+                info['piprobe'] = True
+                if seen:
+                    return dict(bucket='action-sees-own-parseinfo', oracle='enabling parse information only adds entries to the results: an action is '
+                                'handed the AST before the entry of its own invocation is set', observed=seen[:3]), info
             # a semantics that rejects one particular AST value (FailedSemantics): outcomes must not depend on memo settings
             if con.calls and pick is not None:
                 target = repr(tu.canon(con.calls[pick % len(con.calls)]))
